@@ -126,17 +126,22 @@ def winding_contains(ring, lon, lat, tol=0.0):
     vs = [sphere_vec(a, b) for a, b in ring]
     if vs and vs[0] == vs[-1]:
         vs = vs[:-1]
-    # tangent basis at p
-    e1 = unit(cross((0.0, 0.0, 1.0), p)) if abs(p[2]) < 0.999999 else (1.0, 0.0, 0.0)
+    # orthonormal tangent basis at p (Gram-Schmidt, so that p itself projects to the origin also next to the poles)
+    a0 = (0.0, 0.0, 1.0) if abs(p[2]) < 0.9 else (1.0, 0.0, 0.0)
+    e1 = unit(cross(a0, p))
     e2 = cross(p, e1)
     total = 0.0
     dmin = 10.0
     n = len(vs)
     prev = None
+    # a cell is at most ~40 degrees across: if some vertex of the ring is 90 degrees or more away, the point is not inside
+    if any(dot(p, v) <= 0.05 for v in vs):
+        return False, min(ang(p, v) for v in vs)
     for i in range(n + 1):
         v = vs[i % n]
-        d = (v[0] - p[0], v[1] - p[1], v[2] - p[2])
-        x, y = dot(d, e1), dot(d, e2)
+        w = dot(p, v)
+        # gnomonic projection on the tangent plane at p: great-circle edges become straight segments
+        x, y = dot(v, e1) / w, dot(v, e2) / w
         dmin = min(dmin, math.hypot(x, y))
         if prev is not None:
             px, py = prev
